@@ -148,7 +148,9 @@ type capture struct {
 	problems []string
 }
 
-func (c *capture) bad(format string, a ...any) { c.problems = append(c.problems, fmt.Sprintf(format, a...)) }
+func (c *capture) bad(format string, a ...any) {
+	c.problems = append(c.problems, fmt.Sprintf(format, a...))
+}
 
 func sortedCopy(s []string) []string {
 	o := append([]string{}, s...)
@@ -465,7 +467,7 @@ func runBackend(kind string, batch int, ms mapSpec, mm *gostatsd.MetricMap) (*ca
 		if strings.HasPrefix(kind, "otlp") && batch%2 == 1 {
 			// odd batch sizes also split the series over several OTLP resources (by the value of tag k and by host);
 			// the decoded entries are the same (resource and data point attributes are joined), the batch limit must hold
-			opts.ResourceKeys = []string{"k", "host"}
+			opts.ResourceKeys = []string{"k", "host", "k"} // a key listed twice is accepted by the configuration
 		}
 		b, err = bk.New(kind, opts)
 		if err != nil {
